@@ -138,9 +138,10 @@ theorem C09_dropped_iff_surplus (expected : List Nat) (buf : Nat) (collected : L
 
 /-! ## the reducer applies the results -/
 
-/-- fresh snapshot: `AddCollectedEvent` appends the event to the live buffer (and to no other) -/
+/-- fresh snapshot (and no re-run scheduled earlier in this tick): `AddCollectedEvent` appends
+the event to the live buffer (and to no other) -/
 theorem C09_reducer_fresh_add (cfg : Cfg) (pol : Policy) (step : Nat) (tickEv : Ev) (dc : Bool)
-    (acc : ResAcc) (buf : Nat) (ev : Ev)
+    (acc : ResAcc) (buf : Nat) (ev : Ev) (hnot : acc.stillInProgress = false)
     (hfresh : ((acc.st.workers step).collected.get buf).length ≤ (acc.exec.snapEvents.get buf).length) :
     let acc' := applyRes cfg pol step tickEv dc acc (.addCollected buf ev)
     (acc'.st.workers step).collected.get buf = (acc.st.workers step).collected.get buf ++ [ev] ∧
@@ -149,7 +150,7 @@ theorem C09_reducer_fresh_add (cfg : Cfg) (pol : Policy) (step : Nat) (tickEv : 
   simp only [applyRes, Collected.get_touch]
   have : ¬ ((acc.st.workers step).collected.get buf).length > (acc.exec.snapEvents.get buf).length := by
     omega
-  simp only [this, if_false, State.set, if_true, Collected.get_append, and_true]
+  simp only [hnot, Bool.false_eq_true, this, if_false, State.set, if_true, Collected.get_append, and_true]
   refine ⟨by rw [Collected.get_touch], fun b hb => ?_⟩
   rw [Collected.get_append_ne _ _ _ _ hb, Collected.get_touch_ne _ _ _ hb]
 
@@ -157,7 +158,7 @@ theorem C09_reducer_fresh_add (cfg : Cfg) (pol : Policy) (step : Nat) (tickEv : 
 appended; the invocation stays in progress and is **re-run on the same worker slot with the
 same event against the fresh buffer** -/
 theorem C09_reducer_stale_rerun (cfg : Cfg) (pol : Policy) (step : Nat) (tickEv : Ev) (dc : Bool)
-    (acc : ResAcc) (buf : Nat) (ev : Ev)
+    (acc : ResAcc) (buf : Nat) (ev : Ev) (hnot : acc.stillInProgress = false)
     (hstale : ((acc.st.workers step).collected.get buf).length > (acc.exec.snapEvents.get buf).length) :
     let acc' := applyRes cfg pol step tickEv dc acc (.addCollected buf ev)
     (∀ b, (acc'.st.workers step).collected.get b = (acc.st.workers step).collected.get b) ∧
@@ -165,11 +166,20 @@ theorem C09_reducer_stale_rerun (cfg : Cfg) (pol : Policy) (step : Nat) (tickEv 
     acc'.cmds = acc.cmds ++ [.runWorker step ev acc.exec.wid] ∧
     acc'.exec.snapEvents.get buf = (acc.st.workers step).collected.get buf ∧
     acc'.exec.wid = acc.exec.wid := by
-  simp only [applyRes, Collected.get_touch, hstale, if_true, State.set, true_and, and_true]
+  simp only [applyRes, hnot, Bool.false_eq_true, if_false, Collected.get_touch, hstale, if_true, State.set,
+    true_and, and_true]
   intro b
   by_cases hb : b = buf
   · subst hb; exact Collected.get_touch _ _
   · exact Collected.get_touch_ne _ _ _ hb
+
+/-- once a re-run is scheduled, the remaining `AddCollectedEvent` results of the same tick are
+skipped: nothing is appended and no second `CommandRunWorker` is issued (the re-run produces
+them again against the refreshed snapshot) -/
+theorem C09_reducer_rerun_skips (cfg : Cfg) (pol : Policy) (step : Nat) (tickEv : Ev) (dc : Bool)
+    (acc : ResAcc) (buf : Nat) (ev : Ev) (hsip : acc.stillInProgress = true) :
+    applyRes cfg pol step tickEv dc acc (.addCollected buf ev) = acc := by
+  simp only [applyRes, hsip, if_true]
 
 /-- `DeleteCollectedEvent` of an invocation that completed empties exactly that buffer; of one
 that did not complete (it is waiting or failed) it changes nothing -/
